@@ -21,7 +21,8 @@ ALPH = [" ", "\t", "\n", "\xa0", "a", "b"]
 # letters that Unicode normalisation forms, case mapping or width folding would change: a normaliser of SPACES keeps them
 ODD = ["\u00b5g", "km\u00b2", "\ufb01eld", "\uff1cb\uff1e", "\uff06", "\uff02", "e\u0301", "\u212b", "\u2460", "\uff46", "\u0130", "\u00df", "\u01c6", "\u2026", "\u2122", "\u1e9b\u0323"]
 PROTECTED = ["markup", "literalLayout", "objectName", "attributeName", "para"]
-PLAIN = ["title", "abstract", "section", "value", "emphasis", "dataset", "entityName", "x"]
+PLAIN = ["title", "abstract", "section", "value", "emphasis", "dataset", "entityName", "x", "html", "HTML", "br", "meta", "p", "head", "script"]
+# (html / br / meta ...: names an XSLT processor treats specially when it guesses the output method from the root element)
 
 
 def w_text(strings):
